@@ -102,7 +102,11 @@ class HLLSys(E1):
             fresh = SK.make("hll", self.p, self.seed)
             for k in keyset:
                 fresh.add(k)
-            e = self.expect[keyset] = (regs, fresh.registers.tobytes(), float(fresh.query()))
+            try:
+                fq = float(fresh.query())
+            except Exception:
+                fq = float("nan")
+            e = self.expect[keyset] = (regs, fresh.registers.tobytes(), fq)
         return e
 
     def oracle(self, work, model):
@@ -121,7 +125,11 @@ class HLLSys(E1):
                 )
             elif got != fresh_regs:
                 probs.append(f"sketch {s}: registers differ from a fresh sketch fed each key once")
-            q = float(sk.query())
+            try:
+                q = float(sk.query())
+            except Exception as e:
+                probs.append(f"sketch {s}: query() raised {type(e).__name__}: {e}")
+                continue
             if q != fresh_q and not (q != q and fresh_q != fresh_q):
                 probs.append(
                     f"sketch {s}: query()={q!r} differs from fresh sketch of the distinct keys {fresh_q!r}"
